@@ -236,11 +236,13 @@ def main(run, tier):
     cs, lemmas, env = ci.build(cio)
     verify_functions(run, cs, {}, {}, tier=tier)
     bounded(run, (cio, es5, unparsers, sourcemap), tier)
+    from . import pathobl
+    pathobl.add(run, tier)
     run.trust('close() does not raise (the statement lists read, parse, unparse and write failures)',
               'external calls either raise or return (no other effect on the streams than recorded by the ghost state)')
-    run.assume('the content part (output = printer text + link; link designates the map of the lower-level API; relative paths) '
-               'is bounded only: sourcemap.write_sourcemap / verify_write_sourcemap_args / utils.normrelpath have no deductive '
-               'contract', 'io.write with a list of nodes: bounded only (E1 covers a single Node)')
+    run.assume('the content part (output = printer text + link; link designates the map of the lower-level API) is bounded only: '
+               'sourcemap.write_sourcemap has no deductive contract; verify_write_sourcemap_args is under contract for which path is '
+               'made relative to which, utils.normrelpath (os.path string functions) is bounded only', 'io.write with a list of nodes: bounded only (E1 covers a single Node)')
 
 
 def replay(data):
